@@ -66,7 +66,8 @@ CORRUPTIONS = ["flip-quote", "flip-quote-report-data", "flip-quote-signature", "
                "root-of-other-kind", "quote-hash-at-offset", "att-hash-at-offset",
                "wrong-root-extra-targets", "flip-x509-extra-targets",
                "attacker-chain-with-own-root-embedded", "attacker-chain-with-own-root-embedded",
-               "cert-by-key-of-another-algorithm", "cert-by-key-of-another-algorithm"]
+               "cert-by-key-of-another-algorithm", "cert-by-key-of-another-algorithm",
+               "att-message-extended"]
 
 
 # process time zones of the shards (None: as inherited, UTC in this sandbox): validity is a
@@ -263,6 +264,12 @@ def corrupt(rng, m, doc, kind):
         # bytes appended to the signed quote without re-signing
         q["message"] = q["message"] + "00"
         return d, root, "quote"
+    if kind == "att-message-extended":
+        # bytes appended to the QE report body without re-signing: the signature is one
+        # of the message as it was, not of the message as it is
+        a["message"] = a["message"] + rng.choice(["00", "00" * 32, rng.randbytes(7).hex(),
+                                                  a["message"]])
+        return d, root, "attestation"
     if kind == "auth-data-extended":
         a["auth_data"] = a["auth_data"] + "00"
         return d, root, "attestation"
